@@ -1816,6 +1816,26 @@ def c20(ck):
     neg = ck.model("PolyseedThreads.tla", "PolyseedThreads_negative.cfg", must_hold=False)
     if neg["ok"]:
         ck.infra.append("vacuous: NoRace holds even with concurrent configuration calls")
+    # the same footprint model for an UNBOUNDED number of calls per thread: Apalache discharges the inductive
+    # invariant (Init => IndInv, IndInv /\ Next => IndInv', IndInv => NoRace) symbolically
+    import subprocess
+    import shutil as _sh
+    if _sh.which("apalache-mc"):
+        steps = [("--init=Init", "--inv=IndInv", "--length=0"), ("--init=IndInit", "--inv=IndInv", "--length=1"),
+                 ("--init=IndInit", "--inv=NoRace", "--length=0")]
+        proved = 0
+        for st in steps:
+            r = subprocess.run(["apalache-mc", "check", "--out-dir=" + ck.work.path("apalache"), "--run-dir=" + ck.work.path("apalache-run")] + list(st)
+                               + [os.path.join(run.SPEC, "PolyseedThreadsInd.tla")], stdout=subprocess.PIPE, stderr=subprocess.STDOUT, text=True,
+                               timeout=900, cwd=ck.work.dir)
+            if "EXITCODE: OK" in r.stdout:
+                proved += 1
+            elif "Checker has found an error" in r.stdout:
+                pth = ck.write_replay(dict(kind="model", module="PolyseedThreadsInd.tla", cfg=" ".join(st), output=r.stdout[-3000:]))
+                ck.violations.append((pth, "specification-level: inductive invariant of the threads model fails (%s)" % " ".join(st)))
+            else:
+                ck.notes.append("apalache step %s inconclusive: %s" % (" ".join(st), r.stdout[-300:]))
+        ck.extra["apalache_inductive_obligations"] = dict(obligations=len(steps), discharged=proved)
     runs = [("mt_so", 4, 40), ("mt_tsan", 4, 25)] if quick else [("mt_so", 16, 400), ("mt_tsan", 16, 150), ("mt_so", 8, 200), ("mt_tsan", 8, 100)]
     import json
     tsan_reports = 0
